@@ -495,6 +495,16 @@ impl Deb822 {
         if self.0.children().count() > 0 {
             let mut builder = GreenNodeBuilder::new();
             builder.start_node(EMPTY_LINE.into());
+            if index.is_none()
+                && self
+                    .0
+                    .last_token()
+                    .map(|t| t.kind() != NEWLINE)
+                    .unwrap_or(false)
+            {
+                // the document does not end in a newline: terminate its last line first
+                builder.token(NEWLINE.into(), "\n");
+            }
             builder.token(NEWLINE.into(), "\n");
             builder.finish_node();
             to_insert.push(SyntaxNode::new_root_mut(builder.finish()).into());
